@@ -1166,6 +1166,18 @@ class Gen:
                     'bad': 'wrong_type_value'}
         if cause == 'value_partial':
             # text with several fields, an invalid one late: the rejection comes after some parts were accepted
+            lazy = False
+            if self.kind == 'msg' and rng.random() < 0.45:
+                # ... assigned through a segment that does not exist yet (the lazily created element is empty
+                # before and must be empty after), followed by an ordinary write through the same path
+                ref_ = T.message_ref(self.version, self.init['name'])
+                segs_, _g = self.msg_children(ref_)
+                missing = [c for c in segs_ if m is not None and not m.reps('seg', c[0]) and c[0] != 'MSH' and
+                           len(_usable_fields(self.version, c[0])) >= 2]
+                if missing:
+                    seg_name = rng.choice(missing)[0]
+                    path = [['seg', seg_name, 0, rng.choice([0, 1])]]
+                    lazy = True
             fl = _usable_fields(self.version, seg_name)
             if len(fl) < 2:
                 return None
@@ -1180,12 +1192,19 @@ class Gen:
                     continue
                 if i == bad_at:
                     one = ce[0][2][1] == 1
-                    t = self.field_value(fr, 0.95)
-                    if one and rng.random() < 0.5:
-                        t = t + self.ec['REPETITION'] + self.field_value(fr)
+                    if one and rng.random() < 0.6:
+                        # two valid repetitions for a field that takes one: refused when the second is added,
+                        # i.e. after the first (and every field before it) has been accepted
+                        t = self.field_value(fr) + self.ec['REPETITION'] + self.field_value(fr)
+                    else:
+                        t = self.field_value(fr, 0.95)     # an invalid leaf: refused while the text is parsed
                     parts.append(t)
                 else:
                     parts.append(self.field_value(fr) if rng.random() < 0.7 else '')
+            if lazy:
+                i2, c2 = rng.choice(fl)
+                self.pending.append({'k': 'set', 'p': path, 'c': ['fld', i2, 0, self.sp()], 'via': 'attr',
+                                     'v': {'text': self.field_value(c2[1])}})
             return {'k': 'value', 'p': path, 'text': self.ec['FIELD'].join(parts), 'bad': 'value_partial'}
         return None
 
